@@ -30,7 +30,7 @@ H3_STUB = {
 ENGINES["h3"] = {
     "package": "server",
     "harness": "server",
-    "instrument": ["server", "server/commitlog"],
+    "instrument": ["server", "server/commitlog", "server/telemetry"],
     "extra_harness": [("server/commitlog", "commitlog")],
     "fs": [],
     "replace": {"github.com/nats-io/nats.go": "natsgo", "github.com/hashicorp/raft": "raft", "github.com/liftbridge-io/nats-on-a-log": "natslog", "github.com/nats-io/nuid": "nuid"},
@@ -273,6 +273,18 @@ PROPS["C18"] = {
     "level_text": "seeded exploration of operation/fault histories; oracle: every committed stream/group operation has an event whose id is its Raft index and whose content matches it, first appearances are in commit order, redeliveries of an id are byte-identical, no event exists for an entry that has none; bounded liveness: 90 simulated seconds after the last fault the dispatcher has caught up",
     "level_note": "single server (controller change = leadership loss and re-election of the same server, or restart); the activity partition is led by the same server",
     "rule": "programs of 6-29 (thorough -75) operations; distinct = distinct event-log hash; non-trivial = >=3 API operations",
+    "assumptions": H3_ASSUME,
+}
+
+PROPS["C19"] = {
+    "engine": "h3",
+    "level": "exploration",
+    "budget": {"quick": 40, "thorough": 400},
+    "runs_per_proc": 40,
+    "technique": "deterministic simulation of one real server (real config parsing, real telemetry collector on the fake clock) whose HTTP transport is a recorder; the on/off wish reaches the server through each documented route (programmatic Config, YAML file, environment variable, file plus environment); streams, subjects, messages and NATS credentials with recognisable contents; simulated days pass, the server is stopped, crashed and restarted at seeded points",
+    "level_text": "seeded exploration over configuration routes x interval settings x lifecycle histories; oracle: disabled => no request at all over the whole run including shutdown; enabled => requests only to the telemetry host, JSON body with exactly the documented field set, a version-4 UUID instance id that is stable across restarts, no recognisable user string and no host name",
+    "level_note": "the environment variable is set in the worker process for the duration of a run (runs in one worker are sequential); network access is not attempted (recorder)",
+    "rule": "programs of 4-15 lifecycle operations; distinct = distinct event-log hash; every run is counted as non-trivial (each evaluates the request log)",
     "assumptions": H3_ASSUME,
 }
 
